@@ -17,6 +17,8 @@ pub struct Isolation { pub actor_index: usize, pub seq: u64, pub clock: Clock }
 pub struct ChangeGraph { pub g: Ghost<int> }
 impl ChangeGraph {
     pub uninterp spec fn spec_seq(&self, actor: usize) -> u64;
+    pub uninterp spec fn spec_heads(&self) -> Seq<ChangeHash>;
+    pub uninterp spec fn spec_hash(&self, actor: usize, seq: u64) -> ChangeHash;
     pub uninterp spec fn spec_max_op(&self) -> u64;
     #[verifier::external_body]
     pub fn seq_for_actor(&self, actor: usize) -> (r: u64) ensures r == self.spec_seq(actor), r < u32::MAX { unimplemented!() }
@@ -36,14 +38,14 @@ pub struct TransactionArgs { pub actor_index: usize, pub seq: u64, pub start_op:
 pub struct Automerge { pub ops: OpSet, pub change_graph: ChangeGraph, pub queue: ChangeQueue }
 
 impl Automerge {
-    pub uninterp spec fn spec_heads(&self) -> Seq<ChangeHash>;
-    pub uninterp spec fn spec_hash(&self, actor: usize, seq: u64) -> ChangeHash;
+    pub open spec fn spec_heads(&self) -> Seq<ChangeHash> { self.change_graph.spec_heads() }
+    pub open spec fn spec_hash(&self, actor: usize, seq: u64) -> ChangeHash { self.change_graph.spec_hash(actor, seq) }
     #[verifier::external_body]
     pub fn get_heads(&self) -> (r: Vec<ChangeHash>) ensures r@ == self.spec_heads() { unimplemented!() }
     #[verifier::external_body]
     pub fn get_hash(&self, actor: usize, seq: u64) -> (r: Result<ChangeHash, AutomergeError>) ensures 1 <= seq <= self.change_graph.spec_seq(actor) ==> r == Ok::<ChangeHash, AutomergeError>(self.spec_hash(actor, seq)) { unimplemented!() }
     #[verifier::external_body]
-    pub fn get_or_create_actor_index(&mut self) -> (r: usize) ensures r < final(self).ops.actors.len(), final(self).change_graph == old(self).change_graph, final(self).queue == old(self).queue, final(self).spec_heads() == old(self).spec_heads() { unimplemented!() }
+    pub fn get_or_create_actor_index(&mut self) -> (r: usize) ensures r < final(self).ops.actors.len(), final(self).change_graph == old(self).change_graph, final(self).queue == old(self).queue { unimplemented!() }
     #[verifier::external_body]
     pub fn isolate_actor(&mut self, heads: &[ChangeHash]) -> (r: Isolation) ensures r.actor_index < final(self).ops.actors.len(), final(self).change_graph == old(self).change_graph, final(self).queue == old(self).queue { unimplemented!() }
 
@@ -52,6 +54,13 @@ impl Automerge {
             r.start_op.get() == final(self).change_graph.spec_max_op() + 1,
             heads is None ==> r.seq == final(self).change_graph.spec_seq(r.actor_index) + 1,
             heads matches Some(h) ==> r.deps@ == h@,
+            // not isolated: deps are the current heads plus the actor's own previous change (no duplicates added)
+            heads is None ==> ({
+                let hs = old(self).spec_heads();
+                let a = r.actor_index;
+                let prev_seq = final(self).change_graph.spec_seq(a);
+                if prev_seq >= 1 && !hs.contains(final(self).spec_hash(a, prev_seq)) { r.deps@ == hs.push(final(self).spec_hash(a, prev_seq)) } else { r.deps@ == hs }
+            }),
             final(self).queue.dropped(final(self).ops.actors[r.actor_index as int], r.seq),
     {
         let actor_index;
